@@ -29,7 +29,7 @@ def cases(rng, thorough):
             for r in range(reps):
                 fid = rng.choice(ids + [rng.getrandbits(32), rng.getrandbits(11), rng.getrandbits(29)])
                 variant = rng.choice([0, 1])
-                off = rng.choice([0, 0, 4])
+                off = rng.choice([0, 0, 4, 1, 2, 3, 5, 6, 7]) if n % 4 else rng.choice([0, 0, 4, 2])     # every placement for padded lengths
                 trail = rng.choice([0, 0, 5])
                 size = off + H + n + pad(n) + trail
                 bgk = rng.choice(["random", "ones", "zeros"])
